@@ -776,6 +776,10 @@ SCIPY_SETTINGS = {
     "default": {},
     # an optimiser that gives up after one sweep (`success = False`): whatever it returns must still not be worse than the start
     "powell-maxiter1": dict(custom_scipy_minimize_params=dict(method="Powell", options=dict(maxiter=1, xtol=1e-4, ftol=1e-4))),
+    # a gradient method on finite differences of the single-precision objective: scipy frequently ends with "precision loss"
+    # (`success = False`) at a point that did improve; and a budget of two evaluations-worth of iterations
+    "bfgs-no-jacobian": dict(use_jacobian=False, custom_scipy_minimize_params=dict(method="BFGS", options=dict(gtol=1e-2, maxiter=200))),
+    "bfgs-maxiter2": dict(use_jacobian=False, custom_scipy_minimize_params=dict(method="BFGS", options=dict(gtol=1e-4, maxiter=2))),
 }
 
 
@@ -1227,6 +1231,9 @@ def check(run: Run, gen_ok=True, model_ok=True):
                 check_scipy(run, model, kind, tag, cname, df, seed)
                 if tag == "loaded" and (thorough or cname in ("missing-data", "one-visit-each")):
                     check_scipy(run, model, kind, tag, cname, df, seed, settings="powell-maxiter1")
+                if tag == "loaded" and kind != "mixture_logistic" and (thorough or cname == "missing-data"):
+                    check_scipy(run, model, kind, tag, cname, df, seed, settings="bfgs-no-jacobian")
+                    check_scipy(run, model, kind, tag, cname, df, seed, settings="bfgs-maxiter2")
             for cname, df in todo:
                 for algo in ("mean_posterior", "mode_posterior"):
                     if kind == "mixture_logistic" and (cname != "one-individual" or algo != "mean_posterior") and not thorough:
